@@ -132,7 +132,8 @@ def streams(tier, rng, P, only=None, cases=None):
             cs.append(dict(req="compile2 %s %s" % (hx(wrap % a), hx(wrap % b)), src=wrap % a, un=wrap % b, show=wrap % a, jump=True, sexp=None, key="tieend%d" % j))
         # a value list written in the `=` form (no parentheses) directly before the `:` of the loop: the colon is still the loop's
         for j in range(40 if big else 12):
-            x = rng.choice(["v.onNote=110,70", "q.onCycle=80,90", "t.onNote=1,2,3", "v.onCycle=100,60", "o.onNote=4,5", "l.onNote=48,24", "v.N=90,80", "q.C=50,100"])
+            x = rng.choice(["v.onNote=110,70", "q.onCycle=80,90", "t.onNote=1,2,3", "v.onCycle=100,60", "o.onNote=4,5", "l.onNote=48,24", "v.N=90,80", "q.C=50,100",
+                            "@(2)", "@(17)", "Voice(9)", "@(3,1)", "v(90)", "q(70)"])      # (… and commands whose argument is closed by its parenthesis)
             k = rng.choice([2, 3]); h = rng.choice(["c8", "c8 d8", "e"]); t = rng.choice(["d8", "g8 a8", "r8"]); tail = rng.choice(["e", "f g", "r"])
             wrapl = rng.choice(["%s", "%s", "Sub{%s} r", "Div{%s}2"])
             a = wrapl % ("[%d %s %s : %s ]" % (k, h, x, t)) + " " + tail
